@@ -153,12 +153,13 @@ Definition un_paren (R : rules) (u : unop) (p : pos) : bool :=
 (* the flag handed to the left operand of a BinaryOperation o at position p.
    Unchanged code: o is children[1] of a BinaryOperation po of lower precedence (so o is not
    bracketed).  r_deep: also when o is an unbracketed-looking left operand (precedence not below
-   its parent's) of an operation that has the flag. *)
+   its parent's) of an operation that has the flag, or the unbracketed operand of a unary sign. *)
 Definition gleft (R : rules) (p : pos) (o : binop) : bool :=
   match p with
   | PBinR po => prec_bin po <? prec_bin o
   | PBinL po _ g => r_deep R && g && (prec_bin po <=? prec_bin o)
-  | _ => false
+  | PUn u => r_deep R && (String.eqb (un_str u) "-" || String.eqb (un_str u) "+") && (prec_un u <? prec_bin o)
+  | PTop => false
   end.
 
 Definition tk (t : token) (s : string) : option token * string := (Some t, s).
